@@ -235,7 +235,12 @@ namespace ip {
 			m_forwarder.reset();
 		}
 
-		// reset socket state
+		// reset socket state. Whatever was received but not read, received out
+		// of order or waiting to be re-sent belongs to the connection that's
+		// being closed, not to the next one made with this socket
+		m_incoming_queue.clear();
+		m_reorder_buffer.clear();
+		m_outgoing_packets.clear();
 		m_queue_size = 0;
 		m_mss = 1475;
 		m_cwnd = m_mss * 2;
